@@ -43,6 +43,9 @@ func scSummary(sc trace.SpanContext) string {
 // readTraceState observes a TraceState through Walk (not through String).
 func readTraceState(ts trace.TraceState) []Member {
 	var out []Member
+	if n := ts.Len(); n > 0 && n <= 64 {
+		out = make([]Member, 0, n)
+	}
 	ts.Walk(func(k, v string) bool {
 		out = append(out, Member{k, v})
 		return true
